@@ -194,6 +194,8 @@ def param(R):
 
 
 def swallow(R, RID='C14.swallow'):
+    from .common import message_templates
+    message_templates(R, RID)              # ... which rests on the error constructors not failing on OS-chosen text
     q = S + '._send_pong'
     g = R.cfg(q)
     esc = R.exc.escapes(g.ctx)
